@@ -4,6 +4,8 @@
   usage: hydrv <component> < ops > results     (one result line per op line)
 -/
 import Hy.Drv.Frame
+import Hy.Drv.UdpAcl
+import Hy.Drv.UdpSession
 
 open Hy.Drv
 
@@ -27,4 +29,6 @@ def main (args : List String) : IO UInt32 := do
   let stdout ← IO.getStdout
   match args with
   | ["frame"] => loopPure stdin stdout Frame.step; return 0
+  | ["udpacl"] => loopState stdin stdout UdpAcl.step UdpAcl.init; return 0
+  | ["udpsession"] => loopState stdin stdout UdpSession.step UdpSession.init; return 0
   | _ => IO.eprintln "usage: hydrv <component>"; return 2
